@@ -23,6 +23,15 @@ Theorem c36_expr_exact : forall e env v t,
 Proof. exact expr_exact_cur. Qed.
 Print Assumptions c36_expr_exact.
 
+(* [pexpr] includes true division a / b ([PTrueDiv]); CPython's result is a float, so it never
+   has an integer value ([eval64] = None) and c36_expr_exact above quantifies over it without an
+   exclusion.  Once gen_binop diagnoses `/` on int operands (flag probed from the source on
+   every run) the lowering rejects it instead of emitting the integer IR division: *)
+Theorem c36_int_truediv_rejected : forall k a b,
+  lc_int_truediv_rejected k = true -> lower k (PBin PTrueDiv a b) = None.
+Proof. exact truediv_rejected. Qed.
+Print Assumptions c36_int_truediv_rejected.
+
 (* the exported instruction sequence for integer a // b computes floor division *)
 Theorem c36_floordiv_seq_exact : forall x y,
   in64 x = true -> in64 y = true -> y <> 0 -> in64 (x / y) = true ->
